@@ -516,12 +516,28 @@ func rowsCanonAs(inferred, typed *reg.Col) (out []any) {
 
 // C01 — block encode -> decode is the identity for every column type and nesting.
 func C01(c *vk.Ctx) {
-	c.Rule("every column composition of the generated registry (45 base columns; Array / Nullable / LowCardinality / Map(String,.) / Map(.,String) / Tuple(.,String) wrappers wherever the exported generic constructors type-check, to depth 2) x every value sequence of length <= L (quick 2, thorough 4; 5 for the 45 base columns) over the per-type boundary alphabet (0, +-1, min, max, NaN/Inf/-0/denormal, strings of 0/1/127/128 bytes, nulls, empty and nested arrays, range ends of the date types) x revisions {54460, 54454, 54453, 51903, 51902} (each block-affecting feature's own revision and the one before it) x output buffer {empty, 1 byte, 9 bytes pre-filled}; plus size-triggered cases (65535 / 65536 / 65537 / 131073 rows of 17 compositions; LowCardinality dictionaries of 254..257 and 65534..65537 distinct values, strings of 16383 / 16384 / 2^20-1 / 2^20 / 2^20+1 / 2^21-1 / 2^21 bytes in String, Array(String), LowCardinality(String) and Nullable(String), decoded into a fresh and into a used-and-Reset column). Oracles: typed decode into a fresh column and into a target with a history (another block of the composition, then this one, then a zero-row block, then this one again), typed decode of the same contents as the reference server writes them (LowCardinality keys of 8, 16 and 64 bits) and as the server spells the type (Decimal(P, S) at both ends of each width's precision range, explicit time zones; typed and inferred targets), decode through Results.Auto where ColAuto.Infer accepts the type, independent reference decode (refcol) with exact consumption, buffer independence, independence from a second object of the same composition and an unrelated column encoded and decoded in between (no hidden shared state), re-encode equality, WriteBlock+Flush = EncodeBlock; the same run in the purego build must produce the same transcript. distinct_nontrivial = (composition, value sequence) cases with at least one row.")
+	c.Rule("every column composition of the generated registry (45 base columns; Array / Nullable / LowCardinality / Map(String,.) / Map(.,String) / Tuple(.,String) wrappers wherever the exported generic constructors type-check, to depth 2; plus six tuples in which an element that needs no preparation precedes one that does) x every value sequence of length <= L (quick 2, thorough 4; 5 for the 45 base columns) over the per-type boundary alphabet (0, +-1, min, max, NaN/Inf/-0/denormal, strings of 0/1/127/128 bytes, nulls, empty and nested arrays, range ends of the date types) x revisions {54460, 54454, 54453, 51903, 51902} (each block-affecting feature's own revision and the one before it) x output buffer {empty, 1 byte, 9 bytes pre-filled}; plus size-triggered cases (65535 / 65536 / 65537 / 131073 rows of 17 compositions; LowCardinality dictionaries of 254..257 and 65534..65537 distinct values, strings of 16383 / 16384 / 2^20-1 / 2^20 / 2^20+1 / 2^21-1 / 2^21 bytes in String, Array(String), LowCardinality(String) and Nullable(String), decoded into a fresh and into a used-and-Reset column). Oracles: typed decode into a fresh column and into a target with a history (another block of the composition, then this one, then a zero-row block, then this one again), typed decode of the same contents as the reference server writes them (LowCardinality keys of 8, 16 and 64 bits) and as the server spells the type (Decimal(P, S) at both ends of each width's precision range, explicit time zones; typed and inferred targets), decode through Results.Auto where ColAuto.Infer accepts the type, independent reference decode (refcol) with exact consumption, buffer independence, independence from a second object of the same composition and an unrelated column encoded and decoded in between (no hidden shared state), re-encode equality, WriteBlock+Flush = EncodeBlock; the same run in the purego build must produce the same transcript. distinct_nontrivial = (composition, value sequence) cases with at least one row.")
 	L := 2
 	if !c.Quick() {
 		L = 4
 	}
-	for ei, e := range regEntries(c) {
+	// besides the registry (whose tuples put the composed element first): tuples in which an
+	// element that needs no preparation stands before one that does (dictionary, enum, nested)
+	entries := append([]reg.Entry{}, regEntries(c)...)
+	lcs := func() proto.Column { return proto.NewLowCardinality[string](new(proto.ColStr)) }
+	entries = append(entries,
+		reg.Entry{Label: "Tuple(UInt32, LowCardinality(String))", Depth: 2, New: func() proto.Column { return proto.ColTuple{new(proto.ColUInt32), lcs()} }},
+		reg.Entry{Label: "Tuple(String, Array(LowCardinality(String)))", Depth: 2, New: func() proto.Column {
+			return proto.ColTuple{new(proto.ColStr), proto.NewArray[string](proto.NewLowCardinality[string](new(proto.ColStr)))}
+		}},
+		reg.Entry{Label: "Tuple(String, UInt8, LowCardinality(String))", Depth: 2, New: func() proto.Column { return proto.ColTuple{new(proto.ColStr), new(proto.ColUInt8), lcs()} }},
+		reg.Entry{Label: "Tuple(UInt8, Enum8('a'=1,'b'=2,'c'=-3))", Depth: 2, New: func() proto.Column { return proto.ColTuple{new(proto.ColUInt8), reg.Enum("Enum8('a' = 1, 'b' = 2, 'c' = -3)")} }},
+		reg.Entry{Label: "Tuple(UInt8, Tuple(UInt8, LowCardinality(String)))", Depth: 2, New: func() proto.Column {
+			return proto.ColTuple{new(proto.ColUInt8), proto.ColTuple{new(proto.ColUInt8), lcs()}}
+		}},
+		reg.Entry{Label: "Tuple(LowCardinality(String), UInt8, LowCardinality(String))", Depth: 2, New: func() proto.Column { return proto.ColTuple{lcs(), new(proto.ColUInt8), lcs()} }},
+	)
+	for ei, e := range entries {
 		if c.Only == "" && !c.Mine(int64(ei)) {
 			continue
 		}
